@@ -40,7 +40,7 @@ Fixpoint eval_loop (vw : view) (active : option term) (es : list pat) (G : list 
 (* the engine's expression evaluators agree with the algebra's on every row the algebra feeds them *)
 Definition filter_agrees (f : expr) (G : list mu) : bool := forallb (fun m => Bool.eqb (cond_eval f m) (holds f m)) G.
 Definition bind_agrees (args : list barg) (v : var) (G : list mu) : bool :=
-  forallb (fun m => mu_eqb (extend args v m) (bind_row args v m)) G.
+  forallb (fun m => match ebind args v m with [m'] => mu_eqb (extend args v m) m' | _ => false end) G.
 
 Fixpoint agree (vw : view) (active : option term) (p : pat) {struct p} : bool :=
   match p with
@@ -118,15 +118,16 @@ Definition agg_sel (pr : option (list pitem)) (gb : list var) (lim : option N) :
    - FILTER / BIND inside GRAPH ?gv do not mention ?gv (such a filter is either not wellscoped or sees a variable
      the pattern binds itself - the latter is left to the correspondence check);
    - a nested group does not consist of a single FILTER (never wellscoped: its filter mentions a variable and its group has
-     none in scope) nor of a single BIND, except a BIND of constants whose target is not in scope before it (the parser
-     flattens such groups into the enclosing group: class C01-bind-target-sibling when the target is bound before);
+     none in scope) nor of a single BIND, except a BIND of constants (the parser flattens such groups into the enclosing group;
+     a variable argument would not be wellscoped);
    - sub-selects have no LIMIT and either no aggregate / GROUP BY (explicit projection or SELECT star) or aggregate in the legal
      shape: group keys and aggregate aliases projected (the other sub-selects are covered by the correspondence check only). *)
-(* a nested group that consists of a single BIND of constants whose target is not in scope before it: the parser flattens
-   it into the enclosing group, which is harmless exactly then *)
+(* a nested group that consists of a single BIND of constants: the parser flattens it into the enclosing group, where the engine
+   (since 1fdcd07) binds the target or, when a row binds it already, keeps the row only if the values agree - the algebra's join
+   with the group's one-row answer.  (pacc is kept in the signature for the loop of fragB; it is not consulted any more.) *)
 Definition lone_bind_ok (e : pat) (pacc : list var) : bool :=
   match e with
-  | PGroup [PBind args v] => (match barg_vars args with [] => true | _ => false end) && negb (mem_var v pacc)
+  | PGroup [PBind args v] => (match barg_vars args with [] => true | _ => false end)
   | _ => false
   end.
 
